@@ -15,6 +15,11 @@ import (
 // KFill is a macro: N x (WriteToken(String("m<i>")), WriteToken(Int(i))).
 const KFill = "fill"
 
+// KTwins is a macro: two sibling objects in a row, each holding the same N
+// members with 49-byte names (the name set passes 1 KiB at about 21 names and
+// is then re-used for the sibling).
+const KTwins = "twins"
+
 func sp(s string) *string { return &s }
 
 // Alphabet of the bounded-exhaustive layer.
@@ -238,6 +243,9 @@ func drawOp(t *rapid.T, m *Model, deepOK bool) Op {
 		}
 		return Op{K: k, N: uint64(rapid.IntRange(1, 6).Draw(t, "push"))}
 	case w < 36:
+		if rapid.IntRange(0, 2).Draw(t, "twins") == 0 {
+			return Op{K: KTwins, N: uint64(rapid.SampledFrom([]int{2, 20, 21, 22, 23, 30, 64, 66}).Draw(t, "twinsn"))}
+		}
 		return Op{K: KFill, N: uint64(rapid.SampledFrom([]int{1, 2, 5, 63, 64, 65, 66, 80, 140}).Draw(t, "fill"))}
 	default:
 		if rapid.IntRange(0, 2).Draw(t, "unwindall") == 0 {
@@ -249,7 +257,7 @@ func drawOp(t *rapid.T, m *Model, deepOK bool) Op {
 
 func isMacro(op Op) bool {
 	switch op.K {
-	case KPushA, KPushO, KUnwind, KFill:
+	case KPushA, KPushO, KUnwind, KFill, KTwins:
 		return true
 	}
 	return false
